@@ -70,11 +70,11 @@ theorem gate_sound_symbolic_partial (mode : Mode) (hm : mode ≠ .symbolic) (A :
   refine ⟨w, by rw [hx, hw], hbal, hpos, ?_⟩
   rw [hcols, hw]; simp
 
-/-- **refuse_if_unbalanceable** (clause "when no assignment of positive coefficients balances the species as
+/-- **no_answer_if_unbalanceable** (hypothesis-free form; the `ValueError` form is `refuse_if_unbalanceable` below; clause "when no assignment of positive coefficients balances the species as
 placed, a ValueError is raised rather than an answer"): if no positive vector balances `A`, the gate cannot
 return `ok`, whatever the solver produced — numeric or symbolic candidate, both numeric modes.
 (Every non-`ok` outcome of the model is an exception of the real function.) -/
-theorem refuse_if_unbalanceable (mode : Mode) (hm : mode ≠ .symbolic) (A : Mat) (c : Candidate)
+theorem no_answer_if_unbalanceable (mode : Mode) (hm : mode ≠ .symbolic) (A : Mat) (c : Candidate)
     (hno : ¬ ∃ y : Vec, y.length = cols A ∧ (∀ q ∈ y, 0 < q) ∧ Balances A y) :
     ∀ x, gate mode A c ≠ .ok x := by
   intro x h
@@ -110,39 +110,6 @@ theorem unique_on_ray (x y : List ℤ) (t : ℚ) (ht : 0 < t) (hx : listGcd x = 
   subst ht1
   have : y.map (fun (k : ℤ) => (k : ℚ)) = x.map (fun (k : ℤ) => (k : ℚ)) := by simpa using hray'
   exact ((List.map_injective_iff.2 Int.cast_injective) this).symm
-
-/-- **single_ray_answer** (clause "for a reaction whose balanced solutions form a single ray the result is
-that unique minimal solution"): if every balancing vector is a rational multiple of the positive coprime
-vector `x0`, then whatever a numeric mode lets through IS `x0`. -/
-theorem single_ray_answer (mode : Mode) (hm : mode ≠ .symbolic) (A : Mat) (v : Vec) (x : List Entry)
-    (x0 : List ℤ) (h0pos : ∀ k ∈ x0, 0 < k) (h0co : listGcd x0 = 1)
-    (hray : ∀ y : Vec, y.length = cols A → Balances A y → ∃ t : ℚ, y = (toQ x0).map (t * ·))
-    (h : gate mode A (.numeric v) = .ok x) : x = toEntries x0 := by
-  obtain ⟨ks, hx, hbal, hpos, hco, hlen, _⟩ := gate_sound mode hm A v x h
-  obtain ⟨t, ht⟩ := hray (toQ ks) (by simp [toQ, hlen]) hbal
-  have : x0 = ks := by
-    cases ks with
-    | nil =>
-      cases x0 with
-      | nil => rfl
-      | cons a r => simp [toQ] at ht
-    | cons k ks' =>
-      cases x0 with
-      | nil => simp [toQ] at ht
-      | cons a r =>
-        have hk : 0 < k := hpos k (List.mem_cons_self ..)
-        have ha : 0 < a := h0pos a (List.mem_cons_self ..)
-        have hhead : (k : ℚ) = t * (a : ℚ) := by
-          simp only [toQ, List.map_cons, List.cons.injEq] at ht
-          exact ht.1
-        have hkq : (0 : ℚ) < (k : ℚ) := by exact_mod_cast hk
-        have haq : (0 : ℚ) < (a : ℚ) := by exact_mod_cast ha
-        have htpos : 0 < t := by
-          by_contra hneg
-          have : t * (a : ℚ) ≤ 0 := mul_nonpos_of_nonpos_of_nonneg (not_lt.1 hneg) (le_of_lt haq)
-          linarith
-        exact unique_on_ray _ _ t htpos h0co hco ht
-  rw [hx, this]
 
 /-- **setup_balances** (clause "every composition key sums to the same total on both sides"): for the
 matrix chempy builds from the species as placed (`_get`: reactant columns negated; rows = all composition keys),
@@ -207,32 +174,17 @@ theorem keys_equal_species (mode : Mode) (solver : Mat → Candidate) (p : Probl
         exact ⟨mkDict_keys _ _ _ _ _ h1 hr, mkDict_keys _ _ _ _ _ h2 hp⟩
       · cases h
 
-/-- **duplicates_selection** (`allow_duplicates=True`): whatever the duplicate search returns is the answer of
-the duplicate-free function for a SELECTION of the species given — a sub-list of the reactants and a sub-list
-of the products with no species on both sides.  All clauses proved for the duplicate-free function carry over
-to that selection. -/
-theorem duplicates_selection (mode : Mode) (allowDup : Bool) (solver : Mat → Candidate) (p : Problem)
-    (res : Result) (h : balance mode allowDup solver p = .ok res) :
-    ∃ r' p', balanceCore mode solver { p with reactants := r', products := p' } = .ok res ∧
-      (∀ s ∈ r', s ∈ p.reactants) ∧ (∀ s ∈ p', s ∈ p.products) ∧ (∀ s ∈ r', s ∉ p') :=
+/-- **duplicates_selection** (`allow_duplicates=True`): whatever the whole function (`balanceCall`: duplicate search
+around the duplicate-free call, every sub-call resolving `substances` itself) returns is the answer of the
+duplicate-free call `balanceVia` for a SELECTION of the species given — a sub-list of the reactants and a sub-list
+of the products with no species on both sides.  With `balance_end_to_end` (applied to that selection) the returned
+dicts are balanced, positive, coprime with respect to this call's compositions. -/
+theorem duplicates_selection (mode : Mode) (allowDup : Bool) (solver : Mat → Candidate)
+    (table : List (String × Comp)) (arg : SubstArg) (reac prod : List String)
+    (res : Result) (h : balanceCall mode allowDup solver table arg reac prod = .ok res) :
+    ∃ r' p', balanceVia mode solver table arg false false r' p' = .ok res ∧
+      (∀ s ∈ r', s ∈ reac) ∧ (∀ s ∈ p', s ∈ prod) ∧ (∀ s ∈ r', s ∉ p') :=
   dupSearch_selection mode _ _ _ _ _ _ h
-
-/-- **resolve_uses_call_table** (the compositions balanced are those of THIS call): when `substances` is `None`
-or a string of keys, the composition every listed key resolves to is the one this call's `substance_factory`
-(`table`) gives — nothing else (no earlier call, no other state) enters the matrix. -/
-theorem resolve_uses_call_table (table : List (String × Comp)) (reac prod ks : List String)
-    (subs : List (String × Comp)) :
-    (resolve table .factory reac prod = some subs → ∀ k ∈ reac ++ prod, subs.lookup k = table.lookup k) ∧
-    (resolve table (.keys ks) reac prod = some subs → ∀ k ∈ ks, subs.lookup k = table.lookup k) := by
-  constructor
-  · intro h k hk
-    simp only [resolve, Option.map_eq_some_iff] at h
-    obtain ⟨cs, hcs, rfl⟩ := h
-    exact zip_lookup table _ cs hcs k hk
-  · intro h k hk
-    simp only [resolve, Option.map_eq_some_iff] at h
-    obtain ⟨cs, hcs, rfl⟩ := h
-    exact zip_lookup table _ cs hcs k hk
 
 /-- **minimalBySearch_sound** (clause "the 'smallest integers' mode returns a positive solution of minimal
 coefficient sum", as a verified certificate checker applied to each concrete ILP answer): if the bounded
@@ -347,6 +299,318 @@ theorem gate_symbolic_mode_numeric (A : Mat) (v : Vec) (x : List Entry)
           have : (0 : ℚ) < (k : ℚ) := hwpos _ (by rw [hks]; exact List.mem_map.2 ⟨k, hk, rfl⟩)
           exact_mod_cast this
 
+/-- length of the vector the solver handed over -/
+def candLen : Candidate → ℕ
+  | .numeric v => v.length
+  | .symbolic s => s.length
+
+/-- **refuse_if_unbalanceable** (clause "when no assignment of positive coefficients balances the species as placed,
+a ValueError is raised rather than an answer"): for a well-formed matrix with at least one species column and a
+candidate with one entry per species (what linsolve / the ILP always deliver), if no positive vector balances `A`
+the gate's outcome is a `ValueError` — not an answer and not any other exception — in both numeric modes,
+for numeric and symbolic candidates. -/
+theorem refuse_if_unbalanceable (mode : Mode) (hm : mode ≠ .symbolic) (A : Mat) (c : Candidate)
+    (hwf : wellFormed A = true) (hpos : 0 < cols A) (hlen : candLen c = cols A)
+    (hno : ¬ ∃ y : Vec, y.length = cols A ∧ (∀ q ∈ y, 0 < q) ∧ Balances A y) :
+    ∃ tag, gate mode A c = .error (.valueError tag) := by
+  have hA : A ≠ [] := by
+    intro h; rw [h] at hpos; simp [cols] at hpos
+  cases hg : gate mode A c with
+  | ok x => exact absurd hg (no_answer_if_unbalanceable mode hm A c hno x)
+  | error e =>
+    cases c with
+    | numeric v =>
+      have hv : v ≠ [] := by
+        intro h; rw [h] at hlen; simp [candLen] at hlen; omega
+      obtain ⟨sol, hsol⟩ := stage_norm_ok v hv
+      unfold gate at hg
+      simp only [hsol] at hg
+      obtain ⟨hl, _, _⟩ := stage_norm_cases v sol hsol
+      obtain ⟨tag, rfl⟩ := gateChecks_error_is_valueError mode hm A sol e hwf hA
+        (by rw [hl]; exact hlen.symm) hg
+      exact ⟨tag, rfl⟩
+    | symbolic s =>
+      unfold gate at hg
+      simp only at hg
+      obtain ⟨tag, rfl⟩ := gateChecks_error_is_valueError mode hm A s e hwf hA hlen.symm hg
+      exact ⟨tag, rfl⟩
+
+/-- two positive coprime integer vectors on one line through the origin coincide -/
+theorem ray_unique (x0 ks : List ℤ) (t : ℚ) (h0pos : ∀ k ∈ x0, 0 < k) (h0co : listGcd x0 = 1)
+    (hpos : ∀ k ∈ ks, 0 < k) (hco : listGcd ks = 1) (ht : toQ ks = (toQ x0).map (t * ·)) : x0 = ks := by
+  cases ks with
+  | nil =>
+    cases x0 with
+    | nil => rfl
+    | cons a r => simp [toQ] at ht
+  | cons k ks' =>
+    cases x0 with
+    | nil => simp [toQ] at ht
+    | cons a r =>
+      have hk : 0 < k := hpos k (List.mem_cons_self ..)
+      have ha : 0 < a := h0pos a (List.mem_cons_self ..)
+      have hhead : (k : ℚ) = t * (a : ℚ) := by
+        simp only [toQ, List.map_cons, List.cons.injEq] at ht
+        exact ht.1
+      have hkq : (0 : ℚ) < (k : ℚ) := by exact_mod_cast hk
+      have haq : (0 : ℚ) < (a : ℚ) := by exact_mod_cast ha
+      have htpos : 0 < t := by
+        by_contra hneg
+        have : t * (a : ℚ) ≤ 0 := mul_nonpos_of_nonpos_of_nonneg (not_lt.1 hneg) (le_of_lt haq)
+        linarith
+      exact unique_on_ray _ _ t htpos h0co hco ht
+
+/-- **single_ray_answer** (clause "for a reaction whose balanced solutions form a single ray the result is that
+unique minimal solution in all modes"), soundness half, ALL THREE modes: if every balancing vector is a rational
+multiple of the positive coprime vector `x0`, then whatever the gate lets through for a numeric solver answer IS
+`x0`.  In the numeric modes nothing is assumed about the solver; in mode `True`, where chempy checks no residual,
+the solver's contract is needed (`hsym`: linsolve's vector has one entry per species and lies in the null space). -/
+theorem single_ray_answer (mode : Mode) (A : Mat) (v : Vec) (x : List Entry)
+    (x0 : List ℤ) (h0pos : ∀ k ∈ x0, 0 < k) (h0co : listGcd x0 = 1)
+    (hray : ∀ y : Vec, y.length = cols A → Balances A y → ∃ t : ℚ, y = (toQ x0).map (t * ·))
+    (hsym : mode = .symbolic → v.length = cols A ∧ Balances A v)
+    (h : gate mode A (.numeric v) = .ok x) : x = toEntries x0 := by
+  by_cases hm : mode = .symbolic
+  · subst hm
+    obtain ⟨hvl, hvb⟩ := hsym rfl
+    have h' := h
+    unfold gate at h'
+    simp only at h'
+    split at h'
+    · cases h'
+    · rename_i sol hst
+      obtain ⟨hx, hnan, _⟩ := gateChecks_symbolic_ok A sol x h'
+      obtain ⟨hl, hvne, hcase⟩ := stage_norm_cases v sol hst
+      rcases hcase with ⟨d, hd, hsol⟩ | hallnan
+      · have hxnum : ∀ e ∈ x, e.isNum = true := by
+          intro e he
+          rw [hx, hsol] at he
+          obtain ⟨q, _, rfl⟩ := List.mem_map.1 he
+          rfl
+        obtain ⟨ks, hks, hpos, hco⟩ := gate_symbolic_mode_numeric A v x h hxnum
+        have hw : v.map (· / d) = toQ ks := by
+          apply map_num_injective
+          rw [← hsol, ← hx, hks]
+          simp [toEntries, toQ, List.map_map, Function.comp_def]
+        have hbal : Balances A (toQ ks) := by
+          intro r hr
+          rw [← hw]
+          have : v.map (· / d) = v.map ((1 / d) * ·) := by
+            apply List.map_congr_left; intro q _; field_simp
+          rw [this, dot_map_mul_right, hvb r hr, mul_zero]
+        obtain ⟨t, ht⟩ := hray (toQ ks) (by rw [← hw]; simpa using hvl) hbal
+        rw [hks, ray_unique x0 ks t h0pos h0co hpos hco ht]
+      · exfalso
+        cases sol with
+        | nil => exact hvne (List.length_eq_zero_iff.1 hl.symm)
+        | cons e0 es =>
+          have := hallnan e0 (List.mem_cons_self ..)
+          subst this
+          simp at hnan
+  · obtain ⟨ks, hx, hbal, hpos, hco, hlen, _⟩ := gate_sound mode hm A v x h
+    obtain ⟨t, ht⟩ := hray (toQ ks) (by simp [toQ, hlen]) hbal
+    rw [hx, ray_unique x0 ks t h0pos h0co hpos hco ht]
+
+/-- **gate_complete_on_ray** (completeness half: "refuses" and "returns" are both characterised): if the positive
+coprime integer vector `x0` balances the well-formed matrix `A` (one entry per species), then for ANY positive
+multiple `t·x0` the solver may hand back, the gate returns `ok x0` — in all three modes.  So on a feasible single
+ray the function cannot refuse once the solver found the ray, and with `t = 1`: the gate never alters a canonical
+answer (e.g. a coprime minimal-sum ILP vector). -/
+theorem gate_complete_on_ray (mode : Mode) (A : Mat) (x0 : List ℤ) (t : ℚ) (ht : 0 < t) (hne : x0 ≠ [])
+    (h0pos : ∀ k ∈ x0, 0 < k) (h0co : listGcd x0 = 1) (hwf : wellFormed A = true) (hcols : cols A = x0.length)
+    (hbal : Balances A (toQ x0)) :
+    gate mode A (.numeric ((toQ x0).map (t * ·))) = .ok (toEntries x0) := by
+  have hvpos : ∀ q ∈ (toQ x0).map (t * ·), 0 < q := by
+    intro q hq
+    simp only [toQ, List.map_map, List.mem_map, Function.comp_apply] at hq
+    obtain ⟨k, hk, rfl⟩ := hq
+    have : (0 : ℚ) < (k : ℚ) := by exact_mod_cast h0pos k hk
+    exact mul_pos ht this
+  have hvne : (toQ x0).map (t * ·) ≠ [] := by
+    cases x0 with
+    | nil => exact absurd rfl hne
+    | cons _ _ => simp [toQ]
+  obtain ⟨d, hd, hst⟩ := stage_norm_pos _ hvne hvpos
+  have hw : ((toQ x0).map (t * ·)).map (· / d) = (toQ x0).map ((t / d) * ·) := by
+    rw [List.map_map]
+    apply List.map_congr_left
+    intro q _
+    simp only [Function.comp_apply]
+    ring
+  rw [hw] at hst
+  have htd : 0 < t / d := div_pos ht hd
+  have hwpos : ∀ q ∈ (toQ x0).map ((t / d) * ·), 0 < q := by
+    intro q hq
+    simp only [toQ, List.map_map, List.mem_map, Function.comp_apply] at hq
+    obtain ⟨k, hk, rfl⟩ := hq
+    have : (0 : ℚ) < (k : ℚ) := by exact_mod_cast h0pos k hk
+    exact mul_pos htd this
+  obtain ⟨ks, hks, hco⟩ := stage2_sound _ _ hst
+  have hkspos : ∀ k ∈ ks, 0 < k := by
+    intro k hk
+    have : (0 : ℚ) < (k : ℚ) := hwpos _ (by rw [hks]; exact List.mem_map.2 ⟨k, hk, rfl⟩)
+    exact_mod_cast this
+  have heq : x0 = ks := unique_on_ray x0 ks (t / d) htd h0co hco (by rw [toQ, ← hks])
+  unfold gate
+  simp only [hst]
+  rw [gateChecks_pass mode A _ hwpos hwf (by simp [toQ, hcols])
+    (by intro r hr; rw [dot_map_mul_right, hbal r hr, mul_zero])]
+  rw [hks, ← heq]
+  simp [toEntries, List.map_map, Function.comp_def]
+
+/-- **balance_end_to_end** — the property's sentence about the FUNCTION's return value, not about the gate.
+`balanceVia` is the whole duplicate-free call from the arguments as passed (`substances` a dict / `None` + factory /
+key string + factory; sides possibly sets), the solver being an arbitrary function of the matrix that returns
+numeric vectors.  If it returns `ok (r, pr)` in a numeric mode (names distinct), then
+* the keys of `r` / `pr` are exactly the reactants / products given, in order (sorted when passed as a set),
+* the coefficients are integers `kr`, `kp`, all positive, jointly coprime,
+* the substances were resolved from THIS call's table (`resolve_lookup` says how), and for EVERY composition key
+  `ck` the total over the reactants equals the total over the products, computed from those compositions. -/
+theorem balance_end_to_end (mode : Mode) (hm : mode ≠ .symbolic) (solver : Mat → Candidate)
+    (hsolver : ∀ A, ∃ v, solver A = .numeric v) (table : List (String × Comp)) (arg : SubstArg)
+    (rset pset : Bool) (reac prod : List String) (r pr : List (String × Entry))
+    (h : balanceVia mode solver table arg rset pset reac prod = .ok (r, pr))
+    (hr : (if rset then sortedSet reac else reac).Nodup) (hp : (if pset then sortedSet prod else prod).Nodup) :
+    r.map (·.1) = (if rset then sortedSet reac else reac) ∧ pr.map (·.1) = (if pset then sortedSet prod else prod) ∧
+    ∃ kr kp : List ℤ, r.map (·.2) = toEntries kr ∧ pr.map (·.2) = toEntries kp ∧
+      (∀ k ∈ kr ++ kp, 0 < k) ∧ listGcd (kr ++ kp) = 1 ∧
+      ∃ subs rc pc, resolve table arg reac prod = some subs ∧
+        lookupAll subs (if rset then sortedSet reac else reac) = some rc ∧
+        lookupAll subs (if pset then sortedSet prod else prod) = some pc ∧
+        ∀ ck ∈ compositionKeys subs, dot (rc.map (·.get ck)) (toQ kr) = dot (pc.map (·.get ck)) (toQ kp) := by
+  generalize her : (if rset then sortedSet reac else reac) = er at *
+  generalize hep : (if pset then sortedSet prod else prod) = ep at *
+  unfold balanceVia at h
+  split at h
+  · cases h
+  · rename_i p A0 hsv
+    -- unpack setupVia
+    unfold setupVia at hsv
+    split at hsv
+    · cases hsv
+    · split at hsv
+      · cases hsv
+      · rename_i subs hres
+        simp only at hsv
+        split at hsv
+        · cases hsv
+        · rename_i A hsetup
+          injection hsv with hsv
+          injection hsv with hp1 hA1
+          subst hp1
+          rw [her, hep] at hsetup h
+          -- unpack balanceCore
+          have hkeys := keys_equal_species mode solver _ r pr h hr hp
+          unfold balanceCore at h
+          simp only [hsetup] at h
+          obtain ⟨v, hv⟩ := hsolver A
+          rw [hv] at h
+          split at h
+          · cases h
+          · rename_i sol hgate
+            split at h
+            · rename_i r' pr' h1 h2
+              injection h with h
+              injection h with ha hb
+              subst ha; subst hb
+              obtain ⟨ks, hx, hbal, hpos, hco, hlen, hrows⟩ := gate_sound mode hm A v sol hgate
+              subst hx
+              have hdis := setup_disjoint _ A hsetup
+              have hnd : (er ++ ep).Nodup := by
+                rw [List.nodup_append]
+                exact ⟨hr, hp, fun a ha b hb hab => hdis b hb (hab ▸ ha)⟩
+              -- the solution vector has one entry per species
+              have hkslen : ks.length = (er ++ ep).length := by
+                cases hA : A with
+                | nil =>
+                  exfalso
+                  rw [hA] at hlen
+                  simp only [cols] at hlen
+                  have hks0 : ks = [] := List.length_eq_zero_iff.1 hlen
+                  unfold gate at hgate
+                  simp only at hgate
+                  split at hgate
+                  · cases hgate
+                  · rename_i sol' hst
+                    obtain ⟨hl, hvne, _⟩ := stage_norm_cases v sol' hst
+                    obtain ⟨hxs, _⟩ := gateChecks_numeric mode hm A sol' _ hgate
+                    rw [← hxs, hks0] at hl
+                    simp [toEntries] at hl
+                    exact hvne (List.length_eq_zero_iff.1 hl.symm)
+                | cons r0 rest =>
+                  have h1' := hrows r0 (by rw [hA]; exact List.mem_cons_self ..)
+                  have h2' := setup_row_length _ A hsetup r0 (by rw [hA]; exact List.mem_cons_self ..)
+                  rw [← h1']; exact h2'
+              have hvals := dict_values mode er ep ks r' pr' hnd hkslen h1 h2
+              have hrl : r'.length = er.length := by
+                have := congrArg List.length hkeys.1
+                simpa using this
+              have hsplit : ks = ks.take er.length ++ ks.drop er.length := (List.take_append_drop _ _).symm
+              have hvals' : r'.map (·.2) ++ pr'.map (·.2) =
+                  toEntries (ks.take er.length) ++ toEntries (ks.drop er.length) := by
+                rw [hvals]; conv_lhs => rw [hsplit]
+                simp [toEntries]
+              have htl : (ks.take er.length).length = er.length := by
+                simp only [List.length_take, hkslen, List.length_append]; omega
+              have hle : er.length ≤ ks.length := by rw [hkslen, List.length_append]; omega
+              obtain ⟨hv1, hv2⟩ := List.append_inj hvals' (by simp [toEntries, hrl, hle])
+              refine ⟨hkeys.1, hkeys.2, ks.take er.length, ks.drop er.length, hv1, hv2, ?_, ?_, ?_⟩
+              · rw [← hsplit]; exact hpos
+              · rw [← hsplit]; exact hco
+              · obtain ⟨rc, pc, hrc, hpc, hiff⟩ := setup_balances _ A hsetup (toQ (ks.take er.length))
+                  (toQ (ks.drop er.length)) (by simp [toQ, hle])
+                refine ⟨subs, rc, pc, hres, hrc, hpc, ?_⟩
+                apply hiff.1
+                have : toQ (ks.take er.length) ++ toQ (ks.drop er.length) = toQ ks := by
+                  conv_rhs => rw [hsplit]
+                  simp [toQ]
+                rw [this]
+                exact hbal
+            · cases h
+
+/-- **balance_refuses_end_to_end** — `refuse_if_unbalanceable` lifted to the function: once the arguments
+resolved and the pre-check passed (`setupVia = ok (p, A)`, at least one species and one composition key), if no
+positive vector balances the species as placed, then for every solver answer with one entry per species the
+call ends in a `ValueError`.  (Before that point the only other outcomes are the ValueErrors of the `_intersect`
+check / pre-check and a KeyError for a species missing from `substances`.) -/
+theorem balance_refuses_end_to_end (mode : Mode) (hm : mode ≠ .symbolic) (solver : Mat → Candidate)
+    (table : List (String × Comp)) (arg : SubstArg) (rset pset : Bool) (reac prod : List String)
+    (p : Problem) (A : Mat) (hs : setupVia table arg rset pset reac prod = .ok (p, A))
+    (hcols : 0 < cols A) (hlen : candLen (solver A) = cols A)
+    (hno : ¬ ∃ y : Vec, y.length = cols A ∧ (∀ q ∈ y, 0 < q) ∧ Balances A y) :
+    ∃ tag, balanceVia mode solver table arg rset pset reac prod = .error (.valueError tag) := by
+  have hsetup : setup p = .ok A := by
+    unfold setupVia at hs
+    split at hs
+    · cases hs
+    · split at hs
+      · cases hs
+      · simp only at hs
+        split at hs
+        · cases hs
+        · rename_i A' hA'
+          injection hs with hs
+          injection hs with h1 h2
+          subst h1; subst h2
+          exact hA'
+  have hrows := setup_row_length p A hsetup
+  have hwf : wellFormed A = true := by
+    unfold wellFormed
+    rw [List.all_eq_true]
+    intro r hr
+    have h1 := hrows r hr
+    cases hA : A with
+    | nil => rw [hA] at hr; cases hr
+    | cons r0 rest =>
+      have h0 := hrows r0 (by rw [hA]; exact List.mem_cons_self ..)
+      simp [cols, h0, h1]
+  obtain ⟨tag, htag⟩ := refuse_if_unbalanceable mode hm A (solver A) hwf hcols hlen hno
+  refine ⟨tag, ?_⟩
+  unfold balanceVia
+  simp only [hs]
+  unfold balanceCore
+  simp only [hsetup, htag]
+
 /-! ### the hypotheses are satisfiable: concrete non-trivial instances -/
 
 /-- C2H2 + O2 -> CO + H2O, rows C, H, O; the solver hands back the non-normalised (2, 3, 4, 2)/2 -/
@@ -372,5 +636,35 @@ example : listGcd [2, 3, 4, 2] = 1 ∧ listGcd [6, 4, 2, 2] = 2 := by
 
 /-- the escape of the pre-check: H2O -> H+ + OH-, charge row: absent from the reactants, both signs in the products -/
 example : precheckKey [0] [1, -1] = .ok () := by decide +kernel
+
+/-- C2H2 + O2 -> CO + H2O is a single ray: every balancing vector is a multiple of (2, 3, 4, 2) — the hypothesis
+`hray` of `single_ray_answer` discharged on a concrete matrix (rows C, H, O). -/
+theorem acetylene_single_ray (y : Vec) (hl : y.length = cols [[-2, 0, 1, 0], [-2, 0, 0, 2], [0, -2, 1, 1]])
+    (hb : Balances [[-2, 0, 1, 0], [-2, 0, 0, 2], [0, -2, 1, 1]] y) :
+    ∃ t : ℚ, y = (toQ [2, 3, 4, 2]).map (t * ·) := by
+  match y, hl with
+  | [a, b, c, d], _ =>
+    have h1 := hb [-2, 0, 1, 0] (by simp)
+    have h2 := hb [-2, 0, 0, 2] (by simp)
+    have h3 := hb [0, -2, 1, 1] (by simp)
+    simp only [dot] at h1 h2 h3
+    refine ⟨a / 2, ?_⟩
+    simp only [toQ, List.map_cons, List.map_nil, Int.cast_ofNat, List.cons.injEq, and_true]
+    refine ⟨by ring, by linarith, by linarith, by linarith⟩
+
+/-- `single_ray_answer` and `gate_complete_on_ray` instantiated: whatever multiple of the ray the solver returns, in
+every mode the answer exists and is (2, 3, 4, 2) -/
+example (mode : Mode) (t : ℚ) (ht : 0 < t) :
+    gate mode [[-2, 0, 1, 0], [-2, 0, 0, 2], [0, -2, 1, 1]] (.numeric ((toQ [2, 3, 4, 2]).map (t * ·)))
+      = .ok (toEntries [2, 3, 4, 2]) :=
+  gate_complete_on_ray mode _ [2, 3, 4, 2] t ht (by simp) (by decide) (by decide) (by decide) (by decide)
+    (by intro r hr; simp only [List.mem_cons, List.not_mem_nil, or_false] at hr
+        rcases hr with rfl | rfl | rfl <;> simp [toQ, dot] <;> norm_num)
+
+example (mode : Mode) (v : Vec) (x : List Entry)
+    (hsym : mode = .symbolic → v.length = 4 ∧ Balances [[-2, 0, 1, 0], [-2, 0, 0, 2], [0, -2, 1, 1]] v)
+    (h : gate mode [[-2, 0, 1, 0], [-2, 0, 0, 2], [0, -2, 1, 1]] (.numeric v) = .ok x) :
+    x = toEntries [2, 3, 4, 2] :=
+  single_ray_answer mode _ v x [2, 3, 4, 2] (by decide) (by decide) acetylene_single_ray hsym h
 
 end ChemModel.C02
